@@ -52,11 +52,9 @@ class SequenceObserver:
         d = Deferred(self._forget_observer)
         if self._error:
             self._eq.eventually(d.errback, self._error)
-        elif self._results:
-            result = self._results.pop(0)
-            self._eq.eventually(d.callback, result)
         else:
             self._observers.append(d)
+            self._schedule_delivery()
         return d
 
     def _forget_observer(self, d):
@@ -71,9 +69,19 @@ class SequenceObserver:
             self._observers = []
         else:
             self._results.append(result)
-            if self._observers:
-                d = self._observers.pop(0)
-                self._eq.eventually(d.callback, self._results.pop(0))
+            self._schedule_delivery()
+
+    def _schedule_delivery(self):
+        # the oldest event and the oldest waiting Deferred are paired in a
+        # later turn, when the event is handed over: a Deferred cancelled
+        # until then has left the list and cannot take an event with it
+        if self._results and self._observers:
+            self._eq.eventually(self._deliver)
+
+    def _deliver(self):
+        if self._results and self._observers:
+            d = self._observers.pop(0)
+            d.callback(self._results.pop(0))
 
 
 class EmptyableSet(set):
